@@ -398,10 +398,10 @@ def carry_rule(repo, rep):
 
 # ------------------------------------------------------------------------------------------------ digit strings (hp2dec, dec2hp) and field extraction
 DEC2HP_REF = '''
-def dec2hp_ref(dec):
+def dec2hp_ref(dec, places):
     minute, second = divmod(abs(dec) * 3600, 60)
     degree, minute = divmod(minute, 60)
-    if round(second, 9) == 60:
+    if round(second, places) == 60:
         second = 0
         minute += 1
         if minute == 60:
@@ -409,6 +409,9 @@ def dec2hp_ref(dec):
             degree += 1
     return int(degree) + int(minute) / 100 + second / 10000
 '''
+
+DEC2HP_WITNESS = ('DECAngle(512.9999999999998).hpa() raised "Invalid HP Notation: 3rd decimal place greater than 5: 512.5959999999999" on the code as found: '
+                  'dec2hp wrote 13 decimals, the readers (rightly) read 12 from 512 up and round the seconds 59.99999999|9 up to 60')
 
 
 def ulp_places(m_hi, open_hi):
@@ -639,50 +642,63 @@ def digit_rules(repo, rep):
                     rep.undecided('R-SIBLING', vkey, w, '%s: a validity test could not be evaluated over the digit domain' % q)
                 else:
                     rep.holds('R-SIBLING', vkey, w, '%s rejects exactly the renderings whose minutes or seconds field is 60 or more (decided over all digit values)' % q)
-    # ---- dec2hp: the HP number assembled as a string
+    # ---- dec2hp: the HP number assembled as a string, per magnitude regime (the thresholds dec2hp itself uses are added)
     f = m.func('dec2hp')
     rep.analysed(f)
     w = where(f, f.node)
-    ev = DigitEvaluator(repo)
-    got = ev.call_function(f, {f.params[0].name: x})
-    key = 'R-DIGITS::geodepy/angles.py::dec2hp'
-    if ev.string_problems:
-        k, nd, msg = ev.string_problems[0]
-        rep.violated('R-DIGITS', key + '::string', where(f, nd), 'dec2hp builds a malformed number: ' + msg, expected='DDD.MMSSsssssssss', actual=msg[:160])
-    else:
+    probe = DigitEvaluator(repo)
+    probe.magnitude = (x, F(100))
+    probe.call_function(f, {f.params[0].name: x})
+    cuts2 = [F(0)] + sorted(set(t for t in (thresholds | probe.thresholds) if 0 < t < HP_MAX)) + [HP_MAX]
+    for i_ in range(len(cuts2) - 1):
+        lo, hi = cuts2[i_], cuts2[i_ + 1]
+        last = i_ == len(cuts2) - 2
+        label = '%s <= |dec| %s %s' % (lo, '<=' if last else '<', hi)
+        tag = '[%s]' % label
+        pmax = ulp_places(hi, not last)
+        ev = DigitEvaluator(repo)
+        ev.magnitude = (x, (lo + hi) / 2)
+        got = ev.call_function(f, {f.params[0].name: x})
+        key = 'R-DIGITS::geodepy/angles.py::dec2hp'
+        if ev.string_problems:
+            k_, nd, msg = ev.string_problems[0]
+            rep.violated('R-DIGITS', key + '::string' + tag, where(f, nd), 'dec2hp builds a malformed number: ' + msg, expected='DDD.MMSSsssssssss', actual=msg[:160])
+            continue
+        ps = [int(mm_.group(2)) for mm_ in (re.match(r'^0(\d+)\.(\d+)f$', sp) for fn, sp, nd in ev.formats if fn == 'dec2hp') if mm_]
+        if len(ps) != 1:
+            rep.undecided('R-DIGITS', key + '::assembly' + tag, w, 'dec2hp does not write its seconds through exactly one "0W.Pf" format (found %s)' % [sp for fn, sp, nd in ev.formats if fn == 'dec2hp'])
+            continue
+        p_ = ps[0]
         lv = ite_leaves(got) if isinstance(got, Rat) else []
-        ref = Oracle(DEC2HP_REF).call('dec2hp_ref', dec=x)
+        ref = Oracle(DEC2HP_REF).call('dec2hp_ref', dec=x, places=C(p_))
         if len(lv) != 2:
-            rep.undecided('R-DIGITS', key, w, 'dec2hp is not "v if dec >= 0 else -v": %s' % show(got, 2, 160))
+            rep.undecided('R-DIGITS', key + '::assembly' + tag, w, 'dec2hp is not "v if dec >= 0 else -v": %s' % show(got, 2, 160))
         else:
-            check_equal(rep, 'R-DIGITS', key + '::assembly', w, lv[0], ref,
+            check_equal(rep, 'R-DIGITS', key + '::assembly' + tag, w, lv[0], ref,
                         'float(f"{D}.{MM}{SSsss}") = D + MM/100 + SS.sss/10000: the minutes fill exactly two digits and the seconds start exactly two digits later')
-            check_equal(rep, 'R-SIBLING', 'R-SIBLING::geodepy/angles.py::dec2hp::digits-sign', w, lv[1], -lv[0], 'dec2hp: negative branch is the negated positive branch')
-        for fn, sp, nd in ev.formats:
-            if fn != 'dec2hp':
-                continue
-            mm_ = re.match(r'^0(\d+)\.(\d+)f$', sp)
-            if mm_:
-                p = int(mm_.group(2))
-                k2 = 'R-FORMAT::geodepy/angles.py::dec2hp::second-places'
-                if p >= 9:
-                    rep.holds('R-FORMAT', k2, where(f, nd), 'seconds written with %d decimals (0.5e-%d" rounding, tolerance 1e-8")' % (p, p))
-                else:
-                    rep.violated('R-FORMAT', k2, where(f, nd), 'seconds written with %d decimals: rounding error 0.5e-%d" exceeds the 1e-8" tolerance' % (p, p), expected='>= 9', actual=str(p))
-    # ---- the carry test of dec2hp looks at the seconds exactly as they will be written
-    f = m.func('dec2hp')
-    ps = [int(mm_.group(2)) for mm_ in (re.match(r'^0(\d+)\.(\d+)f$', sp) for fn, sp, nd in ev.formats if fn == 'dec2hp') if mm_]
-    rs = [(dg, ln) for fn, dg, val, ln in ev.roundings if fn == 'dec2hp']
-    key = 'R-CARRY::geodepy/angles.py::dec2hp::places'
-    if len(ps) == 1 and len(rs) >= 1:
-        dg, ln = rs[0]
-        if dg == ps[0]:
-            rep.holds('R-CARRY', key, '%s:%d' % (f.module.relpath, ln), 'the carry test rounds the seconds to %d places, the places they are written with' % dg)
+            check_equal(rep, 'R-SIBLING', 'R-SIBLING::geodepy/angles.py::dec2hp::digits-sign' + tag, w, lv[1], -lv[0], 'dec2hp: negative branch is the negated positive branch')
+        need = min(13, pmax) - 4
+        k2 = 'R-FORMAT::geodepy/angles.py::dec2hp::second-places' + tag
+        if p_ > pmax - 4:
+            rep.violated('R-FORMAT', k2, w, 'dec2hp writes the seconds with %d decimals for %s, i.e. an HP value of %d decimals where a double determines %d: the HP readers, which read '
+                         '%d decimals there, round a seconds field of 59.99999999x up to 60 and reject the value (%s)' % (p_, label, p_ + 4, pmax, pmax, DEC2HP_WITNESS),
+                         expected='%d decimals of a second' % need, actual=str(p_))
+        elif p_ < need:
+            rep.violated('R-FORMAT', k2, w, 'dec2hp writes the seconds with %d decimals for %s: rounding error 0.5e-%d" (the tolerance is 1e-8", the resolution promised where the double '
+                         'allows it 1e-9")' % (p_, label, p_), expected='%d' % need, actual=str(p_))
         else:
-            rep.violated('R-CARRY', key, '%s:%d' % (f.module.relpath, ln), 'the carry test rounds the seconds to %s places but they are written with %d: a value that rounds to 60 only at %d places '
-                         'is not carried and is written as a seconds field of 60 (invalid HP)' % (dg, ps[0], min(dg or 0, ps[0])), expected=str(ps[0]), actual=str(dg))
-    else:
-        rep.undecided('R-CARRY', key, where(f, f.node), 'carry test / seconds format not recognised (%s, %s)' % (ps, rs))
+            rep.holds('R-FORMAT', k2, w, 'seconds written with %d decimals for %s (HP value of %d decimals; a double determines %d there)' % (p_, label, p_ + 4, pmax))
+        rs = [(dg, ln) for fn, dg, val, ln in ev.roundings if fn == 'dec2hp']
+        kc = 'R-CARRY::geodepy/angles.py::dec2hp::places' + tag
+        if rs:
+            dg, ln = rs[0]
+            if dg == p_:
+                rep.holds('R-CARRY', kc, '%s:%d' % (f.module.relpath, ln), 'the carry test rounds the seconds to %d places, the places they are written with' % dg)
+            else:
+                rep.violated('R-CARRY', kc, '%s:%d' % (f.module.relpath, ln), 'the carry test rounds the seconds to %s places but they are written with %d: a value that rounds to 60 only at %d places '
+                             'is not carried and is written as a seconds field of 60 (invalid HP)' % (dg, p_, min(dg or 0, p_)), expected=str(p_), actual=str(dg))
+        else:
+            rep.undecided('R-CARRY', kc, w, 'carry test not recognised')
     # ---- string form of the DMS / DDM constructors: 'DDD MM SS.SSS' -> fields by position
     for cname, fields in (('DMSAngle', ['degree', 'minute', 'second']), ('DDMAngle', ['degree', 'minute'])):
         init = m.classes[cname].init()
